@@ -3,6 +3,7 @@ mod c13;
 mod c14;
 mod c15;
 mod c20;
+mod sweep;
 
 use vcore::report::Report;
 
@@ -56,11 +57,13 @@ fn main() {
         "c14" => c14::run(&tier, &mut rep),
         "c15" => c15::run(&tier, &mut rep),
         "c20" => c20::run(&tier, &mut rep),
+        "sweep" => sweep::run(&tier, &mut rep),
         "replay" => {
             let rec: serde_json::Value = serde_json::from_str(&std::fs::read_to_string(file.expect("--file")).unwrap()).unwrap();
             match rec["replay"]["prop"].as_str().unwrap_or("") {
                 "C13" => c13::replay(&rec, &mut rep),
                 "C20" => c20::replay(&rec, &mut rep),
+                "SWEEP" => sweep::replay(&rec, &mut rep),
                 "C14" => {
                     let tag = rec["replay"]["tag"].as_str().unwrap_or("").to_string();
                     let mut tmp = Report::new(&prop, &cfg, &tier);
